@@ -52,6 +52,37 @@ def gen_pair(r):
     return sspec, dspec, conflict
 
 
+def relink(r, src, dst):
+    """With probability 0.35: turn some names into hard links of other names, independently per tree."""
+    if r.random() >= 0.45:
+        return 0
+    both = sorted(p for p, e in world.snapshot(src, content=False).items() if e["kind"] == "f" and os.path.isfile(os.path.join(dst, p)) and not os.path.islink(os.path.join(dst, p)))
+    n = 0
+
+    def ln(root, frm, to):
+        os.remove(os.path.join(root, to))
+        os.link(os.path.join(root, frm), os.path.join(root, to))
+
+    eq = [p for p in both if world.sha(os.path.join(src, p)) == world.sha(os.path.join(dst, p))]
+    if len(eq) >= 2 and len(both) >= 3 and r.random() < 0.7:
+        # crossing groups: p and q are equal on both sides; every x is a name of p's inode in the source and of q's inode in the
+        # destination (so x differs unless p and q hold the same bytes)
+        p_, q_ = r.sample(eq, 2)
+        rest = [x for x in both if x not in (p_, q_)]
+        for x in r.sample(rest, min(len(rest), r.randrange(1, 4))):
+            ln(src, p_, x); ln(dst, q_, x)
+            n += 2
+    for root in (src, dst):
+        names = sorted(p for p, e in world.snapshot(root, content=False).items() if e["kind"] == "f")
+        for _ in range(r.randrange(0, 3)):
+            if len(names) >= 2:
+                a, b = r.sample(names, 2)
+                if not os.path.samefile(os.path.join(root, a), os.path.join(root, b)):
+                    ln(root, a, b)
+                    n += 1
+    return n
+
+
 def ventries(listing, snap, ids):
     out = []
     for kind, rel, _ in listing:
@@ -84,6 +115,10 @@ def run(tier, seed):
             src, dst = base + "/src", base + "/dst"
             ew.mk(src, sspec); ew.mk(dst, dspec)
             os.makedirs(src, exist_ok=True); os.makedirs(dst, exist_ok=True)
+            # hard links inside the trees (names of one inode share bytes): the two trees group their names independently, so a
+            # name can be a link of an already-compared inode on both sides and still differ
+            linked = relink(r, src, dst)
+            nlinked = locals().get("nlinked", 0) + (1 if linked else 0)
             bs, bd = world.snapshot(src), world.snapshot(dst)
             args = [src, dst, "--verify-only", "--json"] + (["--checksum"] if mode == "checksum" else ["--mode", mode])
             rr = world.run_sy(args, sc)
@@ -146,6 +181,7 @@ def run(tier, seed):
     res.cov["evaluations"] = len(cases)
     res.cov["distinct_nontrivial"] = len(nontriv)
     res.cov["model_impl_disagreements"] = len(diffs)
+    res.cov["worlds_with_hard_links_regrouped_per_tree"] = nlinked
     res.cov["known_finding_hits"] = {k: len(v) for k, v in hits.items()}
     res.cov["rule"] = ("pairs of trees: destination derived per file from the source (same / same size+mtime different bytes / other size / absent / other mtime), destination-only files, missing directories, "
                        "15% with a directory-vs-file conflict; modes fast/standard/verify/paranoid/--checksum; non-trivial = the trees differ; distinct = distinct (mode, true sets)")
